@@ -56,4 +56,10 @@ func init() {
 	meta("C04", "seq: case = 1..300 sequential calls over 1..6 keys (+misses on absent keys); tierb: case = random sequential prefix of 0..12 calls, then 2..4 workers x 1..6 calls over 1..3 keys under one seeded serialized schedule (strategy uniform/sticky/PCT); lin: case = prefix, then 2..8 goroutines x 20..120 calls or 9..16 x 5..30 over 1..4 keys, free-running with a random yield policy; race: 2..64 goroutines x 10..150 calls, unrecorded; NON-TRIVIAL = seq: >= 5 calls; tierb: the schedule has >= 1 worker switch between hook sites; lin: >= 1 pair of calls by different clients overlaps in time; race: always; distinctness = schedule hash (tierb) / history hash (seq, lin) / case parameters (race)",
 		"tierb explores interleavings at the granularity of the 33 hook sites in sync2/map.go under sequential consistency")
 	meta("C05", "tierb: case = sequential prefix (0..12 Add/Remove/Has-miss/Len), then 2..4 workers x 1..6 set calls over 1..3 values under one seeded serialized schedule; lin: 2..8 free-running goroutines x 10..120 calls over 1..4 values; race: 2..64 goroutines unrecorded; 20% of cases include multi-element AddSet/RemoveSet (conservation only); NON-TRIVIAL = tierb: >= 1 worker switch; lin/race: always (>= 2 goroutines on a shared set); distinctness = schedule hash / case parameters")
+	meta("C09", "tierb: case = KeyedMutex or KeyedRWMutex, sequential prefix touching/clearing keys, 2..4 workers x 1..4 steps (Lock/TryLock/RLock/TryRLock on 1..3 keys, 0..2 scheduling points inside the section) under one seeded serialized schedule; free: case = 3..12 rounds (barrier onto fresh keys / mixed steady state over 2..4 keys / cross-key hold-and-wait) with 2..16 goroutines; NON-TRIVIAL = tierb: >= 1 worker switch; free: always; distinctness = schedule hash / case parameters")
+	meta("C10", "stable: case = one PubSub, 0..4 subscribers (buffers 0..3 / DefaultBuffer), one of six publish variants, timeout off or 0.2..2 ms, receivers prompt/delayed/stalled, 1..3 publishers x 1..8 unique events (every 8th case: WithOnly without churn); churn: 0..3 stable subscribers + 1..3 churners (Sub/SubBuf, third-party Unsub, second Unsub) + optional UnsubAll, Sync variants; churn-async: the same with Pub/PubSlice/PubWait/PubSliceWait; churn-withonly: parent Unsub while a WithOnly clone publishes; NON-TRIVIAL = stable: >= 1 subscriber and >= 1 event; churn: always; distinctness = case parameters")
+	meta("C17", "case = 4..20 rounds, each a fresh Once1/2/3 with 2..32 goroutines behind a barrier + 0..3 late callers, own function per caller (0..3 Gosched, 0..30 us sleep inside); every case is NON-TRIVIAL; distinctness = case parameters")
+	meta("C18", "reg: case = AtomicValue over int64 / string / struct{A,B int64}, optionally stored before start, 2..8 goroutines x 10..100 calls (Load 30%, Store 20%, Swap 20%, CAS 30% with the last value seen as old); race: 2..32 goroutines unrecorded; pool: 2..16 goroutines x 10..200 Get/Put steps, 75% with New, 33% with forced GCs; NON-TRIVIAL = reg: >= 1 pair of overlapping calls by different clients; race/pool: always; distinctness = history hash / case parameters")
+	meta("C19", "queued: case i<48 = (capacity i mod 6, closed?, RecvQueuedFull?, receive-only channel type?) with every fill 0..cap and every limit 0..cap+2; timed: case = one scenario (SendTimeout|SendContext senders vs plain receiver / RecvTimeout|RecvContext receivers vs plain producer with optional close / non-positive timeout with a late peer), capacity 0..3, timeouts 50us..2ms; every case is NON-TRIVIAL; distinctness = case parameters")
+	metas["C19"] = Meta{Rule: metas["C19"].Rule, Assumptions: metas["C19"].Assumptions, ExhaustivePart: "RecvQueued/RecvQueuedFull: capacity 0..5 x fill x open/closed x limit 0..cap+2 x channel direction"}
 }
